@@ -784,3 +784,84 @@ def check_function(model: Model, short: str):
     if not model.has_func(short):
         return [Ob("X2-STORE", f"{short}:X2:anchor", ERROR, "", short, f"{short} vanished")]
     return Ranges(model, short).run()
+
+
+# --------------------------------------------------------------------------- RANK-BOUND
+
+def rule_rank_bound(model: Model, short: str):
+    """After U, S, V = SVD(X) the factors are cut to a rank r (U[:, :r], S[:r], V[:r, :]).  rank_chop returns at most the number of
+    singular values p; the cross routines keep one more (`+ 1`), so r must be clamped by p afterwards.  Abstract values of an integer
+    expression: BOUNDED (<= p), EXCEEDS (may be p + c, c > 0), UNKNOWN.  min(p, anything) is BOUNDED; rank_chop(...) is BOUNDED;
+    BOUNDED + positive constant EXCEEDS.  A cut by a rank that EXCEEDS is reported: torch slices silently to p columns, and the
+    bookkeeping that follows (enrichment padding, reshape targets) uses the larger number."""
+    f = model.func(short)
+    obs = []
+    for blk in _blocks_of(f.node):
+        for i, st in enumerate(blk):
+            if not (isinstance(st, ast.Assign) and isinstance(st.targets[0], ast.Tuple) and len(st.targets[0].elts) == 3 and isinstance(st.value, ast.Call)
+                    and norm(st.value.func).rsplit(".", 1)[-1] == "SVD"):
+                continue
+            names = [e.id if isinstance(e, ast.Name) else None for e in st.targets[0].elts]
+            U, S, V = names
+            state = {}       # int name -> BOUNDED / EXCEEDS / UNKNOWN
+
+            def p_expr(e):
+                t = norm(e).replace(" ", "")
+                return t in (f"{S}.shape[0]", f"len({S})", f"{S}.numel()", f"{U}.shape[1]", f"{V}.shape[0]", f"{S}.size(0)")
+
+            def val(e):
+                if p_expr(e):
+                    return "BOUNDED"
+                if isinstance(e, ast.Name):
+                    return state.get(e.id, "UNKNOWN")
+                if isinstance(e, ast.Call) and norm(e.func).rsplit(".", 1)[-1] == "rank_chop":
+                    return "BOUNDED"
+                if isinstance(e, ast.Call) and norm(e.func) == "min":
+                    args = e.args[0].elts if len(e.args) == 1 and isinstance(e.args[0], (ast.List, ast.Tuple)) else e.args
+                    vs = [val(a) for a in args]
+                    if "BOUNDED" in vs:
+                        return "BOUNDED"
+                    return "EXCEEDS" if all(v == "EXCEEDS" for v in vs) and vs else "UNKNOWN"
+                if isinstance(e, ast.BinOp) and isinstance(e.op, ast.Add):
+                    for a, b in ((e.left, e.right), (e.right, e.left)):
+                        if isinstance(b, ast.Constant) and isinstance(b.value, int) and b.value > 0:
+                            va = val(a)
+                            return "EXCEEDS" if va in ("BOUNDED", "EXCEEDS") else "UNKNOWN"
+                return "UNKNOWN"
+            for nxt in blk[i + 1:]:
+                if isinstance(nxt, ast.Assign) and isinstance(nxt.targets[0], ast.Tuple) and isinstance(nxt.value, ast.Call) and norm(nxt.value.func).rsplit(".", 1)[-1] == "SVD":
+                    break
+                if isinstance(nxt, ast.Assign) and isinstance(nxt.targets[0], ast.Name):
+                    tgt = nxt.targets[0].id
+                    # the cut itself:  U = U[:, :r]
+                    cut = None
+                    v_ = nxt.value
+                    if isinstance(v_, ast.Subscript) and isinstance(v_.value, ast.Name) and v_.value.id in (U, S, V):
+                        sl = v_.slice.elts if isinstance(v_.slice, ast.Tuple) else [v_.slice]
+                        for s_ in sl:
+                            if isinstance(s_, ast.Slice) and s_.lower is None and isinstance(s_.upper, ast.Name):
+                                cut = s_.upper.id
+                    if cut is not None:
+                        k = f"{short}:RANK-BOUND:{norm(nxt)[:50]}:{len(obs)}"
+                        v = state.get(cut, "UNKNOWN")
+                        if v == "EXCEEDS":
+                            obs.append(Ob("RANK-BOUND", k, VIOLATED, model.where(f, nxt), norm(nxt),
+                                          f"{short}: `{norm(nxt)}` cuts an SVD factor to `{cut}`, which can exceed the number of singular values (a rank selected "
+                                          "by rank_chop plus a positive constant, not clamped by the spectrum length afterwards): the slice silently keeps fewer "
+                                          "columns than the rank that the following bookkeeping (enrichment padding, reshapes) uses"))
+                        elif v == "BOUNDED":
+                            obs.append(Ob("RANK-BOUND", k, OK, model.where(f, nxt), norm(nxt), f"`{cut}` is clamped by the number of singular values"))
+                        else:
+                            obs.append(Ob("RANK-BOUND", k, INFO, model.where(f, nxt), norm(nxt), f"bound of `{cut}` not derived"))
+                        continue
+                    if isinstance(nxt.value, (ast.Call, ast.BinOp, ast.Name)):
+                        state[tgt] = val(nxt.value)
+    return obs
+
+
+def _blocks_of(node):
+    for n in ast.walk(node):
+        for fld in ("body", "orelse"):
+            b = getattr(n, fld, None)
+            if isinstance(b, list) and b and isinstance(b[0], ast.stmt):
+                yield b
